@@ -174,14 +174,19 @@ func Colorfy(line string) string {
 	sb := pool.BuilderBuffer.Get().(*strings.Builder)
 	defer pool.RecycleBuilderBuffer(sb)
 
+	// The painters index the fields by position, a line with fewer fields
+	// than that (e.g. plain text that merely starts with "SERVER") gets the
+	// default colors.
+	numDelimiters := strings.Count(line, protocol.FieldDelimiter)
+
 	switch {
-	case strings.HasPrefix(line, "REMOTE"):
+	case strings.HasPrefix(line, "REMOTE") && numDelimiters >= 5:
 		paintRemote(sb, line)
 
-	case strings.HasPrefix(line, "CLIENT"):
+	case strings.HasPrefix(line, "CLIENT") && numDelimiters >= 2:
 		paintClient(sb, line)
 
-	case strings.HasPrefix(line, "SERVER"):
+	case strings.HasPrefix(line, "SERVER") && numDelimiters >= 2:
 		paintServer(sb, line)
 
 	default:
